@@ -1,0 +1,25 @@
+//go:build verif
+
+// Contracts for the deductive checks under /verif (comment-only; no code).
+// The generated getters are straight-line; they are expanded from source at call sites.
+
+package pb
+
+//@ func (*IpnsRecord).GetValue
+//@   inline
+//@ func (*IpnsRecord).GetSignatureV1
+//@   inline
+//@ func (*IpnsRecord).GetValidityType
+//@   inline
+//@ func (*IpnsRecord).GetValidity
+//@   inline
+//@ func (*IpnsRecord).GetSequence
+//@   inline
+//@ func (*IpnsRecord).GetTtl
+//@   inline
+//@ func (*IpnsRecord).GetPubKey
+//@   inline
+//@ func (*IpnsRecord).GetSignatureV2
+//@   inline
+//@ func (*IpnsRecord).GetData
+//@   inline
